@@ -67,6 +67,9 @@ struct SQ {
     /// (side, op, value): side 0 = pa, 1 = pb
     wheres: Vec<(usize, &'static str, i64)>,
     limit: Option<usize>,
+    /// OFFSET written next to the LIMIT (before or after it); what it skips is not part of the property,
+    /// the bound of LIMIT on the number of sequences is
+    offset: Option<(usize, bool)>,
 }
 
 fn queries() -> Vec<SQ> {
@@ -84,10 +87,15 @@ fn queries() -> Vec<SQ> {
                 if let Some(l) = limit {
                     t.push_str(&format!(" LIMIT {l}"));
                 }
-                v.push(SQ { text: t, followed, using_d: true, wheres: ws.clone(), limit });
+                v.push(SQ { text: t, followed, using_d: true, wheres: ws.clone(), limit, offset: None });
             }
         }
-        v.push(SQ { text: format!("QUERY pa {kw} pb LINKED BY u"), followed, using_d: false, wheres: vec![], limit: None });
+        // LIMIT together with OFFSET, in both clause orders
+        for (off, first) in [(1usize, false), (1, true), (2, false)] {
+            let t = if first { format!("QUERY pa {kw} pb LINKED BY u USING TIME d OFFSET {off} LIMIT 1") } else { format!("QUERY pa {kw} pb LINKED BY u USING TIME d LIMIT 1 OFFSET {off}") };
+            v.push(SQ { text: t, followed, using_d: true, wheres: vec![], limit: Some(1), offset: Some((off, first)) });
+        }
+        v.push(SQ { text: format!("QUERY pa {kw} pb LINKED BY u"), followed, using_d: false, wheres: vec![], limit: None, offset: None });
     }
     v
 }
@@ -169,7 +177,7 @@ pub fn check(tier: &str) -> i32 {
                 if !mset.is_subset(&matchable) {
                     errs.push(format!("matched {mset:?} is not a subset of the matchable {matchable:?}"));
                 }
-                if pairs < l.min(matchable.len()) {
+                if q.offset.is_none() && pairs < l.min(matchable.len()) {
                     errs.push(format!("{pairs} sequences returned, {} matchable, LIMIT {l}", matchable.len()));
                 }
             }
@@ -205,7 +213,7 @@ pub fn check(tier: &str) -> i32 {
         layouts: if tier == "quick" { vec![Layout::Mem, Layout::FlushEnd] } else { vec![Layout::Mem, Layout::FlushEnd, Layout::Mixed, Layout::Compact1] },
         queries: qs.iter().map(|q| q.text.clone()).collect(),
         judge: &judge,
-        rule: "every assignment of (link value in {x, y, absent}, time in {t0, t1, t2}) to the events of small a/b sets (1a2b, 2a1b; thorough adds 1a1b, 2a2b, 1a3b), half of them stored in reverse order; queries: FOLLOWED BY and PRECEDED BY x USING TIME d x WHERE in {none, on the a side, on the b side (so that the nearest partner can fail it), on both} x LIMIT {none, 1}, plus the core-timestamp form; layouts memory / flushed (/ mixed / compacted) x 1 and 3 shards; oracle: every returned pair is linked, ordered as required (>= resp. strictly earlier) and satisfies both WHEREs, the matched a-set equals the a-events that have a qualifying partner, LIMIT bounds the number of pairs; distinct_nontrivial = cases with at least one matchable a-event".into(),
+        rule: "every assignment of (link value in {x, y, absent}, time in {t0, t1, t2}) to the events of small a/b sets (1a2b, 2a1b; thorough adds 1a1b, 2a2b, 1a3b), half of them stored in reverse order; queries: FOLLOWED BY and PRECEDED BY x USING TIME d x WHERE in {none, on the a side, on the b side (so that the nearest partner can fail it), on both} x LIMIT {none, 1}, LIMIT 1 with OFFSET 1 / 2 in both clause orders (only the bound of LIMIT is judged), plus the core-timestamp form; layouts memory / flushed (/ mixed / compacted) x 1 and 3 shards; oracle: every returned pair is linked, ordered as required (>= resp. strictly earlier) and satisfies both WHEREs, the matched a-set equals the a-events that have a qualifying partner, LIMIT bounds the number of pairs; distinct_nontrivial = cases with at least one matchable a-event".into(),
         assumptions: vec!["which qualifying b-event a pair carries is not prescribed".into()],
         describe: &|_| "a sequence query does not return exactly the linked, ordered, WHERE-satisfying pairs (exact cases in known/C15.*.json)".to_string(),
         extra: json!({}),
